@@ -1009,7 +1009,8 @@ impl Controller for Sim {
         if rate == 0 {
             return false;
         }
-        let hit = g.fault.chance(rate, 1000);
+        // a rate of 1000 is a per-run switch: no draw from the fault tape
+        let hit = rate >= 1000 || g.fault.chance(rate, 1000);
         if hit {
             *g.fail_hits.entry(site).or_insert(0) += 1;
             g.hash.u64(0xFA11);
